@@ -321,6 +321,34 @@ def corr_merge(ctx, rng, count):
         impl.append((a, b, res))
     if not ctx.proof_ok:
         return
+    # the loop body (`tryMerge`) on the same pairs: a two-command circuit through the real optimiser must come out
+    # with 2 commands (advance), 0 (identity) or 1 (merged, same operation as `merge` returned)
+    treqs, timpl = [], []
+    for a, b, res in impl:
+        spec = dict(n=2, ops=[a, b])
+        try:
+            prog, cmds = og.build(spec)
+            out = real_optimize(prog).circuit
+            if len(out) == 2:
+                got = "advance"
+            elif len(out) == 0:
+                got = "identity"
+            else:
+                got = dict(merged=og.strip_id(og.real_op_to_cmd(out[0].op, [r.ind for r in out[0].reg], 0, [])))
+        except Exception as e:
+            ctx.fail(f"optimize-raises:{type(e).__name__}", f"optimize() of [{a['cls']}, {b['cls']}] raised {type(e).__name__}: {str(e)[:160]}",
+                     dict(kind="purity", spec=spec, how="optimize"))
+            continue
+        treqs.append(dict(op="opt.try", a=og.op_to_cmd(a, 0, []), b=og.op_to_cmd(b, 1, []), B=2))
+        timpl.append((a, b, got))
+    for (a, b, got), model in zip(timpl, ctx.lean(treqs)):
+        ctx.corr_cases += 1
+        if isinstance(model, dict) and "merged" in model:
+            model = dict(merged=og.strip_id(model["merged"]))
+            if isinstance(got, dict) and og.cmd_close(model["merged"], got["merged"]):
+                continue
+        if model != got:
+            ctx.disagree("K1.tryMerge vs optimize_circuit on a two-command circuit", dict(a=a, b=b), model, got)
     for (a, b, res), model in zip(impl, ctx.lean(reqs)):
         ctx.corr_cases += 1
         if isinstance(model, dict) and "merged" in model:
